@@ -799,6 +799,8 @@ pub type CN = Cont<Node>;
 pub type CML = Cont<&'static mut Leaf>;
 /// owned collection over `&mut` arena leaves
 pub type RUnit = OwnedLockCollection<CML>;
+/// a container of mutable borrows of *shared* lock references
+pub type MR = Cont<&'static mut &'static Leaf>;
 
 /// drop-counting tag (C16): counts how often the value it is attached to is dropped
 #[derive(Debug)]
@@ -895,6 +897,11 @@ pub enum Node {
     Group(Box<CN>),
     /// placeholder without locks (never locked, never built from a spec)
     Group0,
+    /// collections over `&mut &Leaf` members
+    MBoxed(BoxedLockCollection<MR>),
+    MRetry(Box<RetryingLockCollection<MR>>),
+    MOwned(Box<OwnedLockCollection<MR>>),
+    MRef(RefHolder<MR>),
 }
 
 pub enum NodeAcc<'g, F: Fam> {
@@ -941,6 +948,10 @@ unsafe impl Lockable for Node {
             Node::RUnit(u) => u.get_ptrs(ptrs),
             Node::Group(c) => c.get_ptrs(ptrs),
             Node::Group0 => {}
+            Node::MBoxed(c) => c.get_ptrs(ptrs),
+            Node::MRetry(c) => c.get_ptrs(ptrs),
+            Node::MOwned(c) => c.get_ptrs(ptrs),
+            Node::MRef(c) => c.get().get_ptrs(ptrs),
         }
     }
     unsafe fn guard(&self) -> Self::Guard<'_> {
@@ -969,6 +980,10 @@ unsafe impl Lockable for Node {
             Node::RUnit(u) => NodeAcc::Unit(u.guard()),
             Node::Group(c) => NodeAcc::Coll(Box::new(c.guard())),
             Node::Group0 => unreachable!("happysim: placeholder node locked"),
+            Node::MBoxed(c) => NodeAcc::Unit(c.guard()),
+            Node::MRetry(c) => NodeAcc::Unit(c.guard()),
+            Node::MOwned(c) => NodeAcc::Unit(c.guard()),
+            Node::MRef(c) => NodeAcc::Unit(c.get().guard()),
         }
     }
     unsafe fn data_mut(&self) -> Self::DataMut<'_> {
@@ -997,6 +1012,10 @@ unsafe impl Lockable for Node {
             Node::RUnit(u) => NodeAcc::Unit(u.data_mut()),
             Node::Group(c) => NodeAcc::Coll(Box::new(c.data_mut())),
             Node::Group0 => unreachable!("happysim: placeholder node locked"),
+            Node::MBoxed(c) => NodeAcc::Unit(c.data_mut()),
+            Node::MRetry(c) => NodeAcc::Unit(c.data_mut()),
+            Node::MOwned(c) => NodeAcc::Unit(c.data_mut()),
+            Node::MRef(c) => NodeAcc::Unit(c.get().data_mut()),
         }
     }
 }
@@ -1037,6 +1056,10 @@ unsafe impl Sharable for Node {
             Node::RUnit(u) => NodeAcc::Unit(u.read_guard()),
             Node::Group(c) => NodeAcc::Coll(Box::new(c.read_guard())),
             Node::Group0 => unreachable!("happysim: placeholder node locked"),
+            Node::MBoxed(c) => NodeAcc::Unit(c.read_guard()),
+            Node::MRetry(c) => NodeAcc::Unit(c.read_guard()),
+            Node::MOwned(c) => NodeAcc::Unit(c.read_guard()),
+            Node::MRef(c) => NodeAcc::Unit(c.get().read_guard()),
         }
     }
     unsafe fn data_ref(&self) -> Self::DataRef<'_> {
@@ -1065,6 +1088,10 @@ unsafe impl Sharable for Node {
             Node::RUnit(u) => NodeAcc::Unit(u.data_ref()),
             Node::Group(c) => NodeAcc::Coll(Box::new(c.data_ref())),
             Node::Group0 => unreachable!("happysim: placeholder node locked"),
+            Node::MBoxed(c) => NodeAcc::Unit(c.data_ref()),
+            Node::MRetry(c) => NodeAcc::Unit(c.data_ref()),
+            Node::MOwned(c) => NodeAcc::Unit(c.data_ref()),
+            Node::MRef(c) => NodeAcc::Unit(c.get().data_ref()),
         }
     }
 }
@@ -1108,5 +1135,54 @@ impl<'g, F: Fam> ContAcc<LeafAcc<'g, F>> {
     pub fn visit_leaf<'x>(&'x mut self, path: &[u8], layers: &mut Vec<bool>) -> PayRef<'x> {
         assert!(path.len() == 1, "happysim: unit path must have one index");
         self.get_mut(path[0] as usize).open(layers)
+    }
+}
+
+
+// ---------------------------------------------------------------------------------------
+// Constructors chosen by the compiler's own verdict: `new` (no duplicate check) if the data
+// type is accepted as `OwnedLockable`, otherwise the checked constructor. For data that
+// merely refers to locks the verdict must be "not owned"; the simulation then sees what a
+// wrong verdict leads to (a collection with a repeated lock that was never checked).
+
+pub struct Pick<L>(pub Option<L>);
+
+pub trait Checked<L> {
+    /// (used the unchecked constructor, result)
+    fn boxed(&mut self) -> (bool, Option<BoxedLockCollection<L>>);
+    fn retry(&mut self) -> (bool, Option<RetryingLockCollection<L>>);
+    fn owned(&mut self) -> (bool, Option<OwnedLockCollection<L>>);
+    fn reff(&mut self) -> (bool, Option<RefHolder<L>>);
+}
+
+impl<L: Lockable + 'static> Checked<L> for Pick<L> {
+    fn boxed(&mut self) -> (bool, Option<BoxedLockCollection<L>>) {
+        (false, BoxedLockCollection::try_new(self.0.take().unwrap()))
+    }
+    fn retry(&mut self) -> (bool, Option<RetryingLockCollection<L>>) {
+        (false, RetryingLockCollection::try_new(self.0.take().unwrap()))
+    }
+    fn owned(&mut self) -> (bool, Option<OwnedLockCollection<L>>) {
+        // an owned collection has no checked constructor at all
+        self.0.take();
+        (false, None)
+    }
+    fn reff(&mut self) -> (bool, Option<RefHolder<L>>) {
+        (false, RefHolder::try_new(self.0.take().unwrap()))
+    }
+}
+
+impl<L: OwnedLockable + 'static> Pick<L> {
+    pub fn boxed(&mut self) -> (bool, Option<BoxedLockCollection<L>>) {
+        (true, Some(BoxedLockCollection::new(self.0.take().unwrap())))
+    }
+    pub fn retry(&mut self) -> (bool, Option<RetryingLockCollection<L>>) {
+        (true, Some(RetryingLockCollection::new(self.0.take().unwrap())))
+    }
+    pub fn owned(&mut self) -> (bool, Option<OwnedLockCollection<L>>) {
+        (true, Some(OwnedLockCollection::new(self.0.take().unwrap())))
+    }
+    pub fn reff(&mut self) -> (bool, Option<RefHolder<L>>) {
+        (true, Some(RefHolder::new_owned(self.0.take().unwrap())))
     }
 }
